@@ -325,6 +325,7 @@ def erase(P) -> dict:
     recs = record_classes(P)
     if not recs:
         return {}
+    selfcheck()
     typer = _Typer(P, recs)
     log: list = []
     for m in P.modules.values():
@@ -365,3 +366,64 @@ def erase(P) -> dict:
             "field_reads": sum(1 for a, b in log if a == r and b != "()"),
         }
     return out
+
+
+# ------------------------------------------------------------------------------------------------ self-check of the erasure
+_FIXTURE = '''
+from typing import NamedTuple, Optional
+from collections import deque
+
+
+class _Pair(NamedTuple):
+    first: int
+    second: int = 7
+
+
+class _Other(NamedTuple):
+    second: int
+    first: int
+
+
+class Box:
+    def __init__(self):
+        self._items: deque[_Pair] = deque()
+
+    def make(self, a, b) -> _Pair:
+        return _Pair(second=b, first=a)
+
+    def head(self) -> Optional[_Pair]:
+        return self._items[0] if self._items else None
+
+    def use(self, p: _Pair, q: _Other, untyped):
+        h = self.head()
+        one = _Pair(1)
+        return p.second, q.second, untyped.second, h.first, self._items[0].second, one, [x.second for x in self._items]
+'''
+_EXPECT = "one = (1, 7)\n    return (p[1], q[0], untyped.second, h[0], self._items[0][1], one, [x[1] for x in self._items])"
+_checked = False
+
+
+def selfcheck() -> None:
+    """The erasure on a fixture with every typing route it relies on; keyword / default resolution; two records with the same field
+    names in different positions; an untyped receiver is left alone.  Run once per process, before the first real erasure."""
+    global _checked
+    if _checked:
+        return
+    _checked = True
+    import os
+    import shutil
+    import tempfile
+
+    from .model import AnalysisError, Program
+
+    d = tempfile.mkdtemp(prefix="sa-records-fixture-")
+    try:
+        with open(os.path.join(d, "fx.py"), "w", encoding="utf-8") as fh:
+            fh.write(_FIXTURE)
+        P = Program(d)
+        use = ast.unparse(P.cls("Box").methods["use"].node)
+        make = ast.unparse(P.cls("Box").methods["make"].node)
+        if _EXPECT not in use or "return (a, b)" not in make:
+            raise AnalysisError("positive fixture for the NamedTuple erasure did not normalise as expected: sa/records.py is broken")
+    finally:
+        shutil.rmtree(d, ignore_errors=True)
